@@ -384,6 +384,21 @@ def run(ctx, rec):
         runner.direct_run(ctx, rec, "frozen-extreme-ids", frozen, judge_b)
         if rec.violations:
             return
+    if ctx.shard == 0:
+        # the same partition under a perturbed ambient environment: a lowered decimal precision, warnings turned into errors
+        import decimal
+        import warnings
+
+        amb = [{"ws": ws, "ks": _positions(ws, [GRID // 3]), "via": via}
+               for ws in (["1000000", "4", "1000000", "4"], ["0.3333333", "0.3333333", "0.3333334"], ["1", "2", "3"], ["0.1", "0.2", "0.7"],
+                          ["123456789", "1", "987654321"], ["0.000001", "1", "0.999999"]) for via in ("direct", "dsl")]
+        with decimal.localcontext() as dctx:
+            dctx.prec = 6
+            with warnings.catch_warnings():
+                warnings.simplefilter("error")
+                runner.direct_run(ctx, rec, "ambient-decimal-precision-6", amb, judge_a)
+        if rec.violations:
+            return
     runner.hyp_run(ctx, rec, "pathA", cases_a(), judge_a, ctx.n(300, 2500))
     if rec.violations:
         return
